@@ -329,6 +329,81 @@ class _Func:
         return self.mini.call(self.node, args, kwargs, closure=self.closure)
 
 
+def _decorators(fn):
+    return {txt(d).split(".")[-1].split("(")[0] for d in fn.decorator_list}
+
+
+def _class_member(mini, cls, item, inst=None):
+    """value of attribute `item` of the interpreted class `cls` (methods,
+    static / class methods, properties, class-level constants); raises
+    AttributeError when the class body does not define it"""
+    found = None
+    for st in cls.body:
+        if isinstance(st, ast.FunctionDef) and st.name == item:
+            found = st            # the last definition wins
+        elif isinstance(st, ast.Assign) and any(
+                isinstance(t, ast.Name) and t.id == item
+                for t in st.targets):
+            found = st
+    if found is None:
+        raise AttributeError(item)
+    if isinstance(found, ast.Assign):
+        return mini.expr(found.value, {}, set())
+    deco = _decorators(found)
+    if "staticmethod" in deco:
+        return mini.bind(found)
+    if "classmethod" in deco:
+        owner = ClassModel(mini, cls)
+        return lambda *a, **k: mini.call(found, (owner,) + a, k)
+    if inst is None:
+        return mini.bind(found)
+    if "property" in deco or "cached_property" in deco:
+        return mini.call(found, (inst,))
+    if deco - {"abstractmethod"}:
+        raise MiniError(f"decorator of `{cls.name}.{item}` is not part of "
+                        f"the model")
+    return lambda *a, **k: mini.call(found, (inst,) + a, k)
+
+
+class ClassModel:
+    """the interpreted class used as a namespace (``Cls.helper(...)``)"""
+
+    def __init__(self, mini, cls):
+        self.__dict__["_mini"] = mini
+        self.__dict__["_cls"] = cls
+
+    def __getattr__(self, item):
+        if item.startswith("__"):
+            raise AttributeError(item)
+        try:
+            return _class_member(self._mini, self._cls, item)
+        except AttributeError:
+            raise MiniError(f"class `{self._cls.name}` has no attribute "
+                            f"`{item}` in the model")
+
+
+class SelfModel:
+    """an instance of the interpreted class: attributes given by the
+    harness are model values, every other attribute – private helper
+    methods, static methods, properties, class constants – is resolved in
+    the class body and interpreted on demand.  Subclass it to add the
+    dunder methods (``__getitem__``, ``__len__`` …) of the model."""
+
+    def __init__(self, mini, cls, **attrs):
+        self.__dict__["_mini"] = mini
+        self.__dict__["_cls"] = cls
+        self.__dict__.update(attrs)
+
+    def __getattr__(self, item):
+        if item.startswith("__"):
+            raise AttributeError(item)
+        try:
+            return _class_member(self._mini, self._cls, item, inst=self)
+        except AttributeError:
+            raise MiniError(f"`{self._cls.name}` instance has no attribute "
+                            f"`{item}` in the model")
+
+
 BUILTINS = {
     "len": len, "sorted": sorted, "set": set, "list": list, "str": str,
     "int": int, "float": float, "range": range, "min": min, "max": max,
